@@ -60,27 +60,29 @@ func NewDoc(c *sym.Ctx, N, A int, names, pool, prefixes, uris []string) *Doc {
 	if len(d.URIs) == 0 {
 		d.URIs = []string{""}
 	}
-	v := func(name string) *sym.Term { return c.Var(name, sym.BV(64)) }
+	np, nu := len(d.Prefixes), len(d.URIs)
+	_ = np
+	_ = nu
 	mk := func(n int) []*sym.Term { return make([]*sym.Term, n) }
 	d.D, d.Kind, d.Name, d.Pfx, d.URI, d.Val, d.NAttr = mk(N), mk(N), mk(N), mk(N), mk(N), mk(N), mk(N)
 	d.AName, d.APfx, d.AURI, d.AVal = make([][]*sym.Term, N), make([][]*sym.Term, N), make([][]*sym.Term, N), make([][]*sym.Term, N)
 	d.D[0] = c.BVC(64, 0)
 	for i := 1; i < N; i++ {
 		si := strconv.Itoa(i)
-		d.D[i] = v("d" + si)
-		d.Kind[i] = v("k" + si)
-		d.Name[i] = v("nm" + si)
-		d.Pfx[i] = v("px" + si)
-		d.URI[i] = v("ur" + si)
-		d.Val[i] = v("v" + si)
-		d.NAttr[i] = v("na" + si)
+		d.D[i] = c.IntVar("d"+si, 0, int64(N-1))
+		d.Kind[i] = c.IntVar("k"+si, 1, 4)
+		d.Name[i] = c.IntVar("nm"+si, 0, int64(len(names)-1))
+		d.Pfx[i] = c.IntVar("px"+si, 0, int64(np-1))
+		d.URI[i] = c.IntVar("ur"+si, 0, int64(nu-1))
+		d.Val[i] = c.IntVar("v"+si, 0, int64(len(pool)-1))
+		d.NAttr[i] = c.IntVar("na"+si, 0, int64(A))
 		d.AName[i], d.APfx[i], d.AURI[i], d.AVal[i] = mk(A), mk(A), mk(A), mk(A)
 		for a := 0; a < A; a++ {
 			sa := si + "_" + strconv.Itoa(a)
-			d.AName[i][a] = v("an" + sa)
-			d.APfx[i][a] = v("ap" + sa)
-			d.AURI[i][a] = v("au" + sa)
-			d.AVal[i][a] = v("av" + sa)
+			d.AName[i][a] = c.IntVar("an"+sa, 0, int64(len(names)-1))
+			d.APfx[i][a] = c.IntVar("ap"+sa, 0, int64(np-1))
+			d.AURI[i][a] = c.IntVar("au"+sa, 0, int64(nu-1))
+			d.AVal[i][a] = c.IntVar("av"+sa, 0, int64(len(pool)-1))
 		}
 	}
 	for i := 0; i < N; i++ {
@@ -700,9 +702,17 @@ func (d *Doc) evalBinary(e *Binary, cx Ctx) Val {
 		l, r := d.Number(d.Eval(e.L, cx)), d.Number(d.Eval(e.R, cx))
 		switch e.Op {
 		case "+":
-			return Val{K: KNum, F: c.FpBin(sym.OFpAdd, l.F, r.F)}
+			v := Val{K: KNum, F: c.FpBin(sym.OFpAdd, l.F, r.F)}
+			if l.I != nil && r.I != nil {
+				v.I = c.BvBin(sym.OBvAdd, l.I, r.I) // exact: both are small integers
+			}
+			return v
 		case "-":
-			return Val{K: KNum, F: c.FpBin(sym.OFpSub, l.F, r.F)}
+			v := Val{K: KNum, F: c.FpBin(sym.OFpSub, l.F, r.F)}
+			if l.I != nil && r.I != nil {
+				v.I = c.BvBin(sym.OBvSub, l.I, r.I)
+			}
+			return v
 		case "*":
 			return Val{K: KNum, F: c.FpBin(sym.OFpMul, l.F, r.F)}
 		case "div":
